@@ -62,6 +62,27 @@ class CompileWorld(GWorld):
                 return _Const("sym")
         return GWorld.getattr(self, it, o, attr, node)
 
+    def str_of_symbol(self, it, v, node):
+        """casadi's printed name of a symbol / of one entry of an SX vector symbol:
+        `SX.sym(name, n)` has the entries name_0 .. name_{n-1} (the entry itself is `name`
+        for n == 1); the repository names its variables `<var>_<element name>`"""
+        t = v.t
+        k = None
+        if t[0] == "idx" and isinstance(t[2], int):
+            t, k = t[1], t[2]
+        if t[0] in ("v", "w"):
+            owner = self.roles.get(t[2].split(".")[0])
+            base = f"{t[1]}_{owner.attrs.get('name', t[2]) if owner is not None else t[2]}"
+        elif t[0] == "s" and "." in t[1]:
+            el, var = t[1].split(".", 1)
+            owner = self.roles.get(el)
+            base = f"{var}_{owner.attrs.get('name', el) if owner is not None else el}"
+        else:
+            return None
+        if k is None or self.sym_type == "MX":
+            return base
+        return f"{base}_{k}"
+
     def call_ext(self, it, name, args, kwargs, node):
         if name == "casadi.symvar":
             v = args[0]
@@ -116,9 +137,20 @@ def build_network(prog: Program, sym_type="SX", variant="merge", same_names=Fals
          Nodes are inserted N1..N4, edges L1, L2, L3: the in-edge iteration order (L1, L3, L2)
          differs from the out-edge order (L1, L2, L3).
        minimal:  N1(ideal origin) -L1[N=1]-> N2(ideal destination): no actions, no disturbances.
-       bifurcation: N1(O1 mainstream) -L1-> N2 -L2-> N3(D1), N2 -L3-> N4(D2 congested)."""
+       bifurcation: N1(O1 mainstream) -L1-> N2 -L2-> N3(D1), N2 -L3-> N4(D2 congested).
+       long:     N1(O1 mainstream) -L1[N=12]-> N2(D1 congested): a link with more than ten
+                 segments (entry names of an SX vector stop sorting like their indices)."""
     w = CompileWorld(prog, sym_type)
     g, K = w.graph, w.consts
+    if variant == "long":
+        N = {k: w.node(k) for k in ("N1", "N2")}
+        L1 = w.link("L1", "Link", nseg=12)
+        O1 = w.origin("O1", "MainstreamOrigin")
+        D1 = w.dest("D1", "CongestedDestination")
+        g.add_node(N["N1"], **{K["ORIGINENTRY"]: O1})
+        g.add_node(N["N2"], **{K["DESTINATIONENTRY"]: D1})
+        g.add_edge(N["N1"], N["N2"], **{K["LINKENTRY"]: L1})
+        return Net(w, [L1], [O1], [D1], N)
     if variant == "minimal":
         N = {k: w.node(k) for k in ("N1", "N2")}
         L1 = w.link("L1", "Link", nseg=1)
@@ -156,8 +188,13 @@ def build_network(prog: Program, sym_type="SX", variant="merge", same_names=Fals
     O2 = w.origin("O2", "MeteredOnRamp", "out")
     O3 = w.origin("O3", "SimplifiedMeteredOnRamp", "limited")
     D1 = w.dest("D1", "CongestedDestination")
+    # the element names do not sort like the order of attachment
+    O1.attrs["name"], O2.attrs["name"], O3.attrs["name"] = "Oz", "Oy", "Ox"
+    L1.attrs["name"], L2.attrs["name"], L3.attrs["name"] = "Lc", "La", "Lb"
+    w.name_alias = dict(getattr(w, "name_alias", {}) or {},
+                        Oz="O1", Oy="O2", Ox="O3", Lc="L1", La="L2", Lb="L3")
     if same_names:
-        L3.attrs["name"] = "L1"
+        L3.attrs["name"] = L1.attrs["name"]
     g.add_node(N["N1"], **{K["ORIGINENTRY"]: O1})
     g.add_node(N["N2"], **{K["ORIGINENTRY"]: O2})
     g.add_node(N["N3"], **{K["DESTINATIONENTRY"]: D1})
